@@ -15,6 +15,7 @@ import (
 	"strings"
 	"time"
 
+	"gosym/smt"
 	"gosym/ssaexec"
 )
 
@@ -260,13 +261,22 @@ func cmdCheck(args []string) int {
 		job := Job{Pkg: pkgImportPath(row.Dir), Func: row.Func, Params: params, Solver: row.Solver, Workers: *workers,
 			MaxPaths: row.MaxPaths, LoopCap: row.LoopCap, StepCap: row.StepCap, IntFirst: row.IntFirst, IntAssert: row.IntAssert, TimeoutMs: row.TimeoutMs}
 		if job.Solver == "" {
-			job.Solver = "z3"
+			job.Solver = smt.DefaultZ3()
 		}
 		if *tier == "thorough" {
 			job.CrossCheck = true
 		}
 		res, err := runJob(prog, job)
 		if err != nil {
+			msg := err.Error()
+			if strings.Contains(msg, "VerifSetup") && (strings.Contains(msg, "OOB:") || strings.Contains(msg, "PANIC:")) {
+				// the concrete warm-up (compiling the harness types with the real compilers) already
+				// violates memory safety / panics: a violation on its own, no symbolic input involved
+				violations++
+				f := ssaexec.AssertFail{ID: "setup-memory-safety", Kind: "OOB", Msg: msg, Pos: "VerifSetup"}
+				violationLines = append(violationLines, writeReplay(id, row, params, f, "compiling the harness types: "+msg))
+				continue
+			}
 			inconclusive = append(inconclusive, fmt.Sprintf("%s: %v", row.Func, err))
 			continue
 		}
